@@ -1218,8 +1218,75 @@ def canonical_idioms(tree: ast.AST) -> int:
             if isinstance(block, list) and block and isinstance(block[0], ast.stmt):
                 n += _loops_to_comprehensions(block)
                 if not isinstance(node, (ast.ClassDef, ast.Module)):
+                    n += _reduce_to_loop(block)
                     n += _defs_to_lambdas(block)
                     n += _tables_to_ladders(block, tree)
+    return n
+
+
+def _reduce_to_loop(block: list[ast.stmt]) -> int:
+    """`v = functools.reduce(step, xs, init)` with a local step function (lambda or nested def)  ->
+    `v = init; for x in xs: v = step(v, x)` (beta-reduced): the left fold written out."""
+    n = 0
+    i = 0
+    while i < len(block):
+        st = block[i]
+        i += 1
+        call = st.value if isinstance(st, (ast.Assign, ast.Return)) else None
+        if not (isinstance(call, ast.Call) and len(call.args) == 3 and not call.keywords):
+            continue
+        f = call.func
+        name = f.attr if isinstance(f, ast.Attribute) else (f.id if isinstance(f, ast.Name) else None)
+        if name != 'reduce':
+            continue
+        step, xs, init = call.args
+        lam = None
+        if isinstance(step, ast.Lambda):
+            lam = step
+        elif isinstance(step, ast.Name):
+            # a nested def of the same block, single return, used only here
+            defs = [d for d in block if isinstance(d, ast.FunctionDef) and d.name == step.id]
+            if len(defs) == 1:
+                body = _docless(defs[0].body)
+                a = defs[0].args
+                if len(body) == 1 and isinstance(body[0], ast.Return) and body[0].value is not None and not (a.vararg or a.kwarg or a.kwonlyargs or a.defaults):
+                    lam = ast.Lambda(args=a, body=body[0].value)
+                    uses = [x for s2 in block for x in ast.walk(s2) if isinstance(x, ast.Name) and x.id == step.id and isinstance(x.ctx, ast.Load)]
+                    if len(uses) == 1:
+                        block.remove(defs[0])
+                        i = block.index(st) + 1
+        if lam is None or len(lam.args.args) != 2:
+            continue
+        omod = getattr(st, '_omod', '')
+        if isinstance(st, ast.Assign) and len(st.targets) == 1 and isinstance(st.targets[0], ast.Name):
+            acc = st.targets[0].id
+        else:
+            acc = '_acc'
+        xname = lam.args.args[1].arg
+        used = {x.id for x in ast.walk(st) if isinstance(x, ast.Name)} | {acc}
+        if xname in used:
+            xname = xname + '_elem'
+        body_expr = _Subst({lam.args.args[0].arg: ast.Name(id=acc, ctx=ast.Load()), lam.args.args[1].arg: ast.Name(id=xname, ctx=ast.Load())}, {}, omod).visit(clone(lam.body, omod))
+
+        def mk(node):
+            for y in ast.walk(node):
+                if not hasattr(y, 'lineno') and isinstance(y, (ast.expr, ast.stmt)):
+                    y.lineno, y.col_offset = st.lineno, st.col_offset
+                    y.end_lineno, y.end_col_offset = getattr(st, 'end_lineno', st.lineno), 0
+                if not getattr(y, '_omod', None):
+                    y._omod = omod  # type: ignore[attr-defined]
+            return node
+
+        first = mk(ast.Assign(targets=[ast.Name(id=acc, ctx=ast.Store())], value=init))
+        loop = mk(ast.For(target=ast.Name(id=xname, ctx=ast.Store()), iter=xs,
+                          body=[ast.Assign(targets=[ast.Name(id=acc, ctx=ast.Store())], value=body_expr)], orelse=[]))
+        new = [first, loop]
+        if isinstance(st, ast.Return):
+            new.append(mk(ast.Return(value=ast.Name(id=acc, ctx=ast.Load()))))
+        k = block.index(st)
+        block[k:k + 1] = new
+        i = k + len(new)
+        n += 1
     return n
 
 
